@@ -153,6 +153,13 @@ func (n *FormalParameterNode) Equal(other value.Value) bool {
 func (f *FormalParameterNode) String() string {
 	var buff strings.Builder
 
+	switch f.Kind {
+	case PositionalRestParameterKind:
+		buff.WriteRune('*')
+	case NamedRestParameterKind:
+		buff.WriteString("**")
+	}
+
 	buff.WriteString(f.Name.String())
 
 	if f.TypeNode != nil {
@@ -486,6 +493,13 @@ func (n *SignatureParameterNode) Equal(other value.Value) bool {
 
 func (n *SignatureParameterNode) String() string {
 	var buff strings.Builder
+
+	switch n.Kind {
+	case PositionalRestParameterKind:
+		buff.WriteRune('*')
+	case NamedRestParameterKind:
+		buff.WriteString("**")
+	}
 
 	buff.WriteString(n.Name.String())
 
